@@ -452,6 +452,7 @@ impl WorkReq {
             body: Blob(self.body.clone().unwrap_or_default()),
             delay_ms,
             req,
+            cancel_ms: 0,
         }
     }
     pub fn plan(&self) -> ReqPlan {
